@@ -41,7 +41,8 @@ pub struct C13L {
     truth: Truth,
     inner: C13,
     reset_since: Vec<u64>,
-    n: usize,
+    /// latch bookkeeping per link identity (a reload re-orders and resizes the list)
+    by_id: std::collections::HashMap<u64, crate::ksim::sel::Latch>,
 }
 
 impl C13L {
@@ -59,11 +60,18 @@ impl Monitor for C13L {
             && pre.len() == ctx.world.conns.len()
             && pre.iter().zip(ctx.world.conns.iter()).all(|(a, b)| a.conn_id == b.conn_id)
         {
-            if self.n != pre.len() {
-                self.n = pre.len();
-                self.inner = C13::default();
-            }
-            self.inner.resize(pre.len());
+            // a link first seen here starts from its own life-long counters
+            self.inner.st = pre
+                .iter()
+                .map(|c| {
+                    self.by_id.get(&c.conn_id).cloned().unwrap_or_else(|| {
+                        let mut l = crate::ksim::sel::Latch::default();
+                        l.gate_events = c.stall_gate_events();
+                        l.pulls = c.silence_pulls();
+                        l
+                    })
+                })
+                .collect();
             self.inner.own.links = own_links(ctx, &self.truth, pre, &self.reset_since);
             // the duplicate probes queued after the decision do not touch guard state other than
             // the probe counter, so the post-step state carries what the decision computed
@@ -76,6 +84,9 @@ impl Monitor for C13L {
                 cfg: ctx.cfg,
             };
             self.inner.judge(&obs, ctx.idx, out);
+            for (c, st) in pre.iter().zip(self.inner.st.iter()) {
+                self.by_id.insert(c.conn_id, st.clone());
+            }
             self.reset_since.clear();
             out.stats.inc("c13l.decisions");
         }
@@ -92,6 +103,8 @@ impl Monitor for C13L {
 pub struct C11L {
     truth: Truth,
     inner: C11,
+    /// Identity of the uplink the shell recorded as its choice after the last client step.
+    prev_choice: Option<u64>,
 }
 
 impl C11L {
@@ -105,6 +118,23 @@ impl Monitor for C11L {
         matches!(kind, StepKind::Client(Some(_)))
     }
     fn on_step(&mut self, ctx: &StepCtx<'_>, out: &mut MonOut) {
+        // "The previous uplink" is an identity, not a position: whatever happened between two
+        // decisions (a reload re-ordering the list, tear-downs), the hysteresis anchor a decision
+        // starts from names the uplink chosen last - or nothing.
+        if let StepKind::Client(Some(_)) = ctx.kind {
+            if let (Some(i), Some(prev)) = (ctx.last_selected_pre, self.prev_choice) {
+                let named = ctx.pre.get(i).map(|v| v.conn_id);
+                if named != Some(prev) {
+                    out.violate(
+                        "C11.hysteresis",
+                        "anchor_names_another_link",
+                        ctx.idx,
+                        format!("the previous choice was uplink {prev:x}, but the decision starts from index {i} = {named:x?}"),
+                    );
+                }
+                out.probe("c11l.anchor_checked");
+            }
+        }
         if let Some((pre, bytes)) = decision(ctx)
             && !ctx.cfg.mode.is_classic()
             && pre.len() == ctx.world.conns.len()
@@ -131,6 +161,12 @@ impl Monitor for C11L {
                 self.inner.judge_select_no_idempotence(&obs, ctx.idx, out);
                 out.stats.inc("c11l.decisions");
             }
+        }
+        if let StepKind::Client(_) = ctx.kind {
+            self.prev_choice = ctx.world.last_selected_idx.and_then(|i| ctx.world.conns.get(i)).map(|c| c.conn_id);
+        }
+        if ctx.reload_snap.is_some_and(|_| matches!(ctx.kind, StepKind::Housekeeping)) && ctx.world.last_selected_idx.is_none() {
+            out.probe("c11l.anchor_reset_by_reload");
         }
         self.truth.update(ctx);
     }
